@@ -302,6 +302,59 @@ fn six(rep: &mut Report, exprs: &[jmespath::Expression<'_>; 6], form: u8, x: &PV
     Some(out)
 }
 
+/// Wide and deep operands: equality has to look at every element, member and level, also
+/// beyond the sizes where implementations switch strategy.
+fn wide_and_deep_pool() -> Vec<PV> {
+    let n = |s: &str| PV::Num(s.to_string());
+    let mut v = vec![];
+    for &len in &[31usize, 32, 33, 64, 65, 255, 256, 257, 1025] {
+        let base: Vec<PV> = (0..len).map(|i| n(&i.to_string())).collect();
+        v.push(PV::Arr(base.clone()));
+        for pos in [0, len / 2, len - 1] {
+            let mut b = base.clone();
+            b[pos] = n("-7");
+            v.push(PV::Arr(b));
+        }
+        v.push(PV::Arr(base[..len - 1].to_vec()));
+        if len <= 257 {
+            let o: BTreeMap<String, PV> = (0..len).map(|i| (format!("k{:04}", i), n(&i.to_string()))).collect();
+            v.push(PV::Obj(o.clone()));
+            let mut o2 = o.clone();
+            o2.insert(format!("k{:04}", len - 1), n("-7"));
+            v.push(PV::Obj(o2));
+            let mut o3 = o.clone();
+            o3.remove(&format!("k{:04}", len / 2));
+            o3.insert(format!("K{:04}", len / 2), n(&(len / 2).to_string()));
+            v.push(PV::Obj(o3));
+        }
+    }
+    for &depth in &[3usize, 4, 5, 8, 16, 40] {
+        for leaf in ["1", "2"] {
+            for shape in 0..3 {
+                let mut x = n(leaf);
+                for d in 0..depth {
+                    x = match (shape + d) % if shape == 2 { 1 } else { 2 } {
+                        0 if shape != 1 => PV::Arr(vec![n("0"), x]),
+                        _ => PV::Obj(vec![("a".to_string(), x), ("z".to_string(), n("0"))].into_iter().collect()),
+                    };
+                }
+                v.push(x);
+            }
+        }
+    }
+    for &len in &[31usize, 32, 33, 255, 256, 257, 4096] {
+        let base: String = (0..len).map(|i| ['a', 'b', 'é', '日'][i % 4]).collect();
+        v.push(PV::Str(base.clone()));
+        let mut cs: Vec<char> = base.chars().collect();
+        cs[len - 1] = 'Z';
+        v.push(PV::Str(cs.iter().collect()));
+        cs[len - 1] = base.chars().last().unwrap();
+        cs[0] = 'Z';
+        v.push(PV::Str(cs.iter().collect()));
+    }
+    v
+}
+
 pub fn run(args: &Args) {
     let mut rep = Report::new("C10");
     let mut rng = Rng::new(args.seed);
@@ -337,6 +390,27 @@ pub fn run(args: &Args) {
                     _ => continue,
                 };
                 check_pair(&mut rep, x, y, &xy, &yx, literal);
+            }
+        }
+    }
+    let wide = wide_and_deep_pool();
+    rep.extra.insert("wide_and_deep_pool_size".into(), json!(wide.len()));
+    for i in 0..wide.len() {
+        for j in i..wide.len() {
+            pair_index += 1;
+            if pair_index % args.shards != args.shard {
+                continue;
+            }
+            // literal spellings of the largest values are long; one form in three
+            let forms: &[u8] = if (i + j) % 3 == 0 { &[0, 1] } else { &[0] };
+            for &form in forms {
+                let (x, y) = (&wide[i], &wide[j]);
+                let xy = six(&mut rep, &exprs, form, x, y);
+                let yx = six(&mut rep, &exprs, form, y, x);
+                if let (Some(a), Some(b)) = (xy, yx) {
+                    check_pair(&mut rep, x, y, &a, &b, form == 1);
+                    rep.count("wide_and_deep_pairs");
+                }
             }
         }
     }
